@@ -24,6 +24,7 @@ type world struct {
 	rgs   []*sam.ReadGroup
 	pgs   []*sam.Program
 	dead  bool
+	focus string // the kind most edits of this history are about ("" = the default mix)
 }
 
 func (w *world) rid(r *sam.Reference) int {
@@ -274,6 +275,11 @@ func (w *world) step() {
 	h := 1 + r.Intn(nh)
 	hd := w.hs[h-1]
 	kind := []string{"refs", "refs", "refs", "rgs", "progs"}[r.Intn(5)]
+	if w.focus != "" && r.Intn(4) != 0 {
+		// a history that keeps to one kind builds lists of three and more entries, so that removals
+		// from the middle and renames of later entries happen with survivors on both sides
+		kind = w.focus
+	}
 	switch op := r.Intn(20); {
 	case op < 8: // add
 		name := names[r.Intn(len(names))]
@@ -556,6 +562,7 @@ func Run(out string) {
 	for i := 0; i < n; i++ {
 		w := &world{t: t, r: r, refID: map[*sam.Reference]int{}, rgID: map[*sam.ReadGroup]int{}, pgID: map[*sam.Program]int{}}
 		t.Begin("header/history", tr.M{})
+		w.focus = []string{"", "", "refs", "rgs", "rgs", "progs"}[r.Intn(6)]
 		steps := 3 + r.Intn(ln)
 		for s := 0; s < steps && !w.dead; s++ {
 			w.step()
